@@ -14,7 +14,7 @@
 //! entries), never from a one-shot parse by the library.
 
 use crate::fw::{show, CaseResult, Cx, Ev, Tier};
-use crate::gen::summary::{self as gs, CutClass, Fault, Pos, Stream};
+use crate::gen::summary::{self as gs, CutClass, Fault, Pos, Shape, Stream};
 use crate::mon::c07::{same_values, text_diff};
 use crate::oracle::summary::{REQUIRED, VARS};
 use crate::rng::hash_strs;
@@ -116,6 +116,22 @@ fn run_partition(ev: &mut Ev, st: &Stream, cuts: &[usize]) -> CaseResult {
             }
         }
         seen = n;
+        // Printing the collection between writes (after the first three
+        // writes and then after every 2^k-th) must show exactly the entries
+        // collected so far - and must not disturb the writes that follow.
+        if !failed && w + 1 < chunks.len() && (w < 3 || w.is_power_of_two()) {
+            let printed = ss.to_string();
+            ev.eval();
+            ev.count("prints_between_writes");
+            let want = &st.bytes[..st.starts[n]];
+            if printed.as_bytes() != want {
+                return Err(format!(
+                    "Display of the collection after write #{w} ({n} entries collected) is not those entries: {}",
+                    text_diff(&printed, &String::from_utf8_lossy(want))
+                )
+                .into());
+            }
+        }
         if failed {
             // entries at the failure = exactly the well-formed entries before the bad one
             if n != limit {
@@ -169,7 +185,12 @@ fn describe(st: &Stream, family: &str, cuts: &[usize]) -> String {
         },
         st.len(),
         st.entries.len(),
-        show(&st.bytes)
+        if st.len() <= 20_000 {
+            show(&st.bytes)
+        } else {
+            // a huge stream is regenerated on replay; show its two ends only
+            format!("{} ... {}", show(&st.bytes[..600]), show(&st.bytes[st.len() - 600..]))
+        }
     )
 }
 
@@ -218,6 +239,30 @@ fn case(cx: &mut Cx, st: &Stream, family: &'static str, cuts: Vec<usize>) {
             Ok(())
         },
     );
+}
+
+/// One monitored case on a huge stream, with the evidence about what the
+/// large writes looked like.
+fn huge_case(cx: &mut Cx, st: &Stream, family: &'static str, cuts: Vec<usize>) {
+    // classify outside the body (pure generator data)
+    let chunks = gs::chunks_of(st.len(), &cuts);
+    let mid_entry = |end: usize| st.starts.binary_search(&end).is_err();
+    let big64 = chunks.iter().any(|&(lo, hi)| hi - lo >= 65_536 && hi < st.len() && mid_entry(hi));
+    let big128 = chunks.iter().any(|&(lo, hi)| hi - lo >= 131_072 && hi < st.len() && mid_entry(hi));
+    let bad_beyond = matches!(&st.bad, Some((j, _)) if st.starts[*j] >= 65_536);
+    let malformed = st.bad.is_some();
+    cx.ev.count(if malformed { "huge/malformed" } else { "huge/well_formed" });
+    if big64 {
+        cx.ev.count("huge/write_of_64k_or_more_ending_inside_an_entry");
+    }
+    if big128 {
+        cx.ev.count("huge/write_of_128k_or_more_ending_inside_an_entry");
+    }
+    if bad_beyond {
+        cx.ev.count("huge/malformed_entry_beyond_64k");
+    }
+    cx.ev.max("max/huge_writes_per_partition", chunks.len() as u64);
+    case(cx, st, family, cuts);
 }
 
 const FIXED: [usize; 8] = [1, 2, 3, 5, 7, 16, 64, 4096];
@@ -359,7 +404,7 @@ pub fn run(cx: &mut Cx) {
     ] {
         cx.ev.require(&format!("family/{fam}"));
     }
-    for k in ["cut/in_multibyte_char", "cut/in_separator", "malformed_cut/in_multibyte_char", "malformed_cut/in_separator", "writes/zero_length"] {
+    for k in ["prints_between_writes", "cut/in_multibyte_char", "cut/in_separator", "malformed_cut/in_multibyte_char", "malformed_cut/in_separator", "writes/zero_length"] {
         cx.ev.require(k);
     }
     for class in ["line", "variable", "int", "missing"] {
@@ -370,6 +415,31 @@ pub fn run(cx: &mut Cx) {
 
     for v in REQUIRED {
         cx.ev.require(&format!("malformed_removed/{}", VARS[v].name));
+    }
+    if cx.tier != Tier::Mini {
+        for fam in [
+            "big_head_at_limit",
+            "big_head_at_boundary",
+            "big_head_short_tail",
+            "fixed_big",
+            "big_then_small",
+            "small_then_big",
+            "alternating_big_small",
+            "random_big",
+            "zero_length_big",
+            "big_head_at_bad_entry",
+        ] {
+            cx.ev.require(&format!("family/{fam}"));
+        }
+        for k in [
+            "huge/well_formed",
+            "huge/malformed",
+            "huge/write_of_64k_or_more_ending_inside_an_entry",
+            "huge/write_of_128k_or_more_ending_inside_an_entry",
+            "huge/malformed_entry_beyond_64k",
+        ] {
+            cx.ev.require(k);
+        }
     }
 
     let mini = cx.tier == Tier::Mini;
@@ -439,6 +509,118 @@ pub fn run(cx: &mut Cx) {
         };
         cx.ev.max("max/stream_bytes", st.len() as u64);
         families(cx, &st, &b, &mut counter, &format!("large-{k}"));
+    }
+
+    // (4) huge streams (70 KiB - 1 MiB, hundreds to thousands of entries)
+    // written in few, large chunks: one call; a head of about 4 KiB ... 1 MiB
+    // (each power of two +-2, and on / next to the entry boundary after it)
+    // then the rest; a big block then a short tail; fixed sizes 8 KiB ...
+    // 512 KiB; a big block then many small ones; small then big; alternating;
+    // seeded mixtures; zero-length writes in between.
+    if !mini {
+        // (target bytes, shape)
+        let plan: Vec<(usize, Shape)> = match cx.tier {
+            Tier::Small => vec![(70_000, Shape::Small), (140_000, Shape::Full)],
+            Tier::Quick => vec![
+                (66_000, Shape::Small),
+                (72_000, Shape::Full),
+                (100_000, Shape::Small),
+                (130_000, Shape::Full),
+                (133_000, Shape::Small),
+                (150_000, Shape::Giant(70_000)),
+                (200_000, Shape::Full),
+                (270_000, Shape::Small),
+                (330_000, Shape::Giant(140_000)),
+                (400_000, Shape::Full),
+                (540_000, Shape::Full),
+                (900_000, Shape::Tiny),
+                (1_100_000, Shape::Full),
+            ],
+            _ => {
+                let mut v = vec![];
+                for k in 0..48usize {
+                    let target = [66_000usize, 72_000, 100_000, 130_000, 133_000, 150_000, 200_000, 270_000, 330_000, 400_000, 540_000, 1_100_000][k % 12]
+                        + k * 1_237;
+                    let shape = match k % 7 {
+                        0 | 3 => Shape::Small,
+                        1 | 4 => Shape::Full,
+                        5 => Shape::Tiny,
+                        _ => Shape::Giant(target / 2),
+                    };
+                    v.push((target, shape));
+                }
+                v
+            }
+        };
+        let nrandom = cx.pick_tier(0, 6, 24, 60);
+        let mut r = cx.shared_stream("huge-streams");
+        for (k, (target, shape)) in plan.iter().enumerate() {
+            let st = gs::huge_stream(&mut r, *target, *shape);
+            cx.ev.max("max/stream_bytes", st.len() as u64);
+            cx.ev.max("max/stream_entries", st.entries.len() as u64);
+            let mut pr = cx.shared_stream(&format!("huge-partitions-{k}"));
+            for (family, cuts) in gs::large_partitions(&mut pr, &st, nrandom) {
+                counter += 1;
+                if cx.mine(counter) {
+                    huge_case(cx, &st, family, cuts);
+                }
+            }
+        }
+
+        // (5) a malformed entry late in a huge stream
+        let plan: Vec<(usize, Shape)> = match cx.tier {
+            Tier::Small => vec![(80_000, Shape::Small)],
+            Tier::Quick => vec![
+                (75_000, Shape::Small),
+                (140_000, Shape::Full),
+                (210_000, Shape::Small),
+                (300_000, Shape::Full),
+            ],
+            _ => (0..16).map(|k| (75_000 + 40_000 * k, if k % 2 == 0 { Shape::Small } else { Shape::Full })).collect(),
+        };
+        let nrandom = cx.pick_tier(0, 3, 8, 20);
+        let mut r = cx.shared_stream("huge-malformed");
+        let mut rr = 0usize;
+        for (k, (target, shape)) in plan.iter().enumerate() {
+            // where the malformed entry sits: the last entry, the one before,
+            // the first one beyond 64 KiB / 128 KiB, somewhere in the second half
+            for place in 0..5usize {
+                let class = ["line", "variable", "int", "missing"][(k + place) % 4];
+                let fault = if class == "missing" {
+                    rr += 1;
+                    Fault::Remove(REQUIRED[rr % REQUIRED.len()])
+                } else {
+                    match gs::fault_of_class(&mut r, class) {
+                        Fault::NoEq(s) if s.trim().is_empty() => Fault::NoEq("garbage".into()),
+                        f => f,
+                    }
+                };
+                let place_ = [
+                    gs::Place::Last,
+                    gs::Place::BeforeLast,
+                    gs::Place::Beyond(65_536),
+                    gs::Place::Beyond(131_072),
+                    gs::Place::SecondHalf,
+                ][place];
+                let pos = Pos::ALL[(k + place) % 3];
+                let st = gs::huge_bad_stream(&mut r, *target, *shape, place_, fault, pos);
+                let j = st.bad.as_ref().map(|b| b.0).unwrap_or(0);
+                let (b0, b1) = (st.starts[j], st.starts[j + 1]);
+                let mut pr = cx.shared_stream(&format!("huge-bad-partitions-{k}-{place}"));
+                let mut parts = gs::large_partitions(&mut pr, &st, nrandom);
+                for c in [b0.saturating_sub(1), b0, b0 + 1, (b0 + b1) / 2, b1 - 2, b1 - 1, b1, b1 + 1] {
+                    if c > 0 && c < st.len() {
+                        parts.push(("big_head_at_bad_entry", vec![c]));
+                    }
+                }
+                for (family, cuts) in parts {
+                    counter += 1;
+                    if cx.mine(counter) {
+                        huge_case(cx, &st, family, cuts);
+                    }
+                }
+            }
+        }
     }
 
     // ---- malformed streams: each fault kind at each entry position -------
